@@ -334,3 +334,175 @@ class FsGetItem(Contract):
 
 
 CONTRACTS.append(FsGetItem())
+
+
+# ------------------------------------------------------------------------------------------------ directory iteration
+# FilesystemRegistry.__iter__ / __len__ (generator over the directory listing).  Listing F = the entries
+# filterdir('/') yields for the patterns built from self._extensions (D-FS: listing_facts); stem(e) = the file
+# stem of entry e.  Ghost state of the loop, all in witness form (no existential in an invariant):
+#   Y    the sequence yielded so far                       seen   the characteristic function of the set `seen`
+#   W1   for a seen stem s: an index into Y with Y[W1[s]] = s
+#   W2   for an index i of Y: an index j < k into F with stem(F[j]) = Y[i]
+from pyvc.models_moclo import fs_listing, fname, listing_facts, STRSET  # noqa: E402
+
+W1S = tm.arr_sort(STR, INT)
+W2S = tm.arr_sort(INT, INT)
+SEQS = tm.seq_sort(STR)
+
+
+def stem_of(e):
+    return tm.app("path_stem", STR, fname(e))
+
+
+def _the_set(st):
+    """the set the loop fills (whatever the local is called)"""
+    sets = [v for v in st.env.values() if isinstance(v, VObj) and v.kind == "PySet"]
+    return sets[0] if len(sets) == 1 else None
+
+
+class DirLoop(LoopSpec):
+    def __init__(self, con):
+        self.con = con
+
+    def havoc(self, ex, st, ctx, modified):
+        st = LoopSpec.havoc(self, ex, st, ctx, {m for m in modified if not (isinstance(st.env.get(m), VObj) and st.env[m].kind == "PySet")})
+        ps = _the_set(st)
+        if ps is None:
+            from pyvc.symex import Unsupported
+            raise Unsupported("directory loop: no single set of seen stems")
+        st.set_inplace(ps, "arr", VT(tm.fresh("seen", STRSET)))
+        st.ghost["yielded"] = tm.fresh("Y", SEQS)
+        st.ghost["W1"] = tm.fresh("W1", W1S)
+        st.ghost["W2"] = tm.fresh("W2", W2S)
+        return st
+
+    def invariant(self, ex, st, ctx):
+        ps = _the_set(st)
+        if ps is None or "yielded" not in st.ghost:
+            from pyvc.symex import Unsupported
+            raise Unsupported("directory loop: ghost state missing")
+        F = self.con.F
+        k = ctx["k"]
+        seen = st.get(ps, "arr").t
+        Y = st.ghost["yielded"]
+        W1 = st.ghost.get("W1", tm.constarr(W1S, 0))
+        W2 = st.ghost.get("W2", tm.constarr(W2S, 0))
+        s, i, j = tm.V("s", STR), tm.V("i", INT), tm.V("j", INT)
+        n = tm.seqlen(Y)
+        return [
+            ("seen-stems-are-yielded", tm.forall([s], tm.implies(tm.select(seen, s), tm.and_(
+                tm.le(0, tm.select(W1, s)), tm.lt(tm.select(W1, s), n), tm.eq(tm.seqnth(Y, tm.select(W1, s)), s))))),
+            ("yielded-keys-are-seen-at-their-own-position", tm.forall_range(i, 0, n, tm.and_(
+                tm.select(seen, tm.seqnth(Y, i)), tm.eq(tm.select(W1, tm.seqnth(Y, i)), i)))),
+            ("yielded-keys-are-stems-of-processed-entries", tm.forall_range(i, 0, n, tm.and_(
+                tm.le(0, tm.select(W2, i)), tm.lt(tm.select(W2, i), k),
+                tm.eq(stem_of(tm.seqnth(F, tm.select(W2, i))), tm.seqnth(Y, i))))),
+            ("stems-of-processed-entries-are-seen", tm.forall_range(j, 0, k, tm.select(seen, stem_of(tm.seqnth(F, j))))),
+            ("k-in-range", tm.le(k, tm.seqlen(F))),
+        ]
+
+    def at_body_start(self, ex, st, ctx):
+        st = st.fork()
+        st.ghost["Y_at_start"] = st.ghost["yielded"]
+        return st
+
+    def at_body_end(self, ex, st, ctx):
+        st = st.fork()
+        Y0, Y1 = st.ghost["Y_at_start"], st.ghost["yielded"]
+        if Y1 is not Y0 and Y1.op == "seq.++" and len(Y1.args) == 2 and Y1.args[0] is Y0 and Y1.args[1].op == "seq.unit":
+            key = Y1.args[1].args[0]
+            st.ghost["W1"] = tm.store(st.ghost["W1"], key, tm.seqlen(Y0))
+            st.ghost["W2"] = tm.store(st.ghost["W2"], tm.seqlen(Y0), ctx["k"])
+        return st
+
+    def hints(self, ex, st, ctx):
+        Y1 = st.ghost["yielded"]
+        if Y1.op == "seq.++" and len(Y1.args) == 2 and Y1.args[1].op == "seq.unit":
+            P, e = Y1.args[0], Y1.args[1].args[0]
+            t = tm.V("t", INT)
+            return [tm.and_(tm.forall_range(t, 0, tm.seqlen(P), tm.eq(tm.seqnth(Y1, t), tm.seqnth(P, t))),
+                            tm.eq(tm.seqnth(Y1, tm.seqlen(P)), e), tm.eq(tm.seqlen(Y1), tm.add(tm.seqlen(P), 1)))]
+        return []
+
+
+def iter_post(F, Y, W1, W2):
+    """what iteration guarantees about the sequence Y of keys it yields, in witness form"""
+    i, j, a, b = tm.V("i", INT), tm.V("j", INT), tm.V("a", INT), tm.V("b", INT)
+    n = tm.seqlen(Y)
+    return [
+        ("yields-each-key-once", tm.forall([a, b], tm.implies(tm.and_(tm.le(0, a), tm.lt(a, b), tm.lt(b, n)),
+                                                            tm.ne(tm.seqnth(Y, a), tm.seqnth(Y, b))))),
+        ("every-listed-file-contributes-its-stem", tm.forall_range(j, 0, tm.seqlen(F), tm.and_(
+            tm.le(0, tm.select(W1, stem_of(tm.seqnth(F, j)))), tm.lt(tm.select(W1, stem_of(tm.seqnth(F, j))), n),
+            tm.eq(tm.seqnth(Y, tm.select(W1, stem_of(tm.seqnth(F, j)))), stem_of(tm.seqnth(F, j)))))),
+        ("every-key-is-the-stem-of-a-listed-file", tm.forall_range(i, 0, n, tm.and_(
+            tm.le(0, tm.select(W2, i)), tm.lt(tm.select(W2, i), tm.seqlen(F)),
+            tm.eq(stem_of(tm.seqnth(F, tm.select(W2, i))), tm.seqnth(Y, i))))),
+    ]
+
+
+class FsIter(Contract):
+    """iteration over a directory registry yields, once each, the stems of the root-level files with a supported extension"""
+    file, qual = BASE, "FilesystemRegistry.__iter__"
+    props = ("C20",)
+    EXT = ("gb", "gbk")
+
+    def setup(self, ex, st, variant):
+        reg = VObj("FilesystemRegistry")
+        st.set_inplace(reg, "fs", VObj("FSAbs"))
+        st.set_inplace(reg, "_extensions", VTuple([VT(tm.S(e)) for e in self.EXT]))
+        self.F = fs_listing(list(self.EXT))
+        self.loops = {0: DirLoop(self)}
+        return dict(self=reg)
+
+    def ensures(self, ex, pre, st, a, result):
+        if not (isinstance(result, VT) and result.t.sort == SEQS):
+            return [("yields-strings", tm.FALSE)]
+        if st.ghost.get("last_iter") is result.t:
+            return []        # call site: result() has assumed the clauses for fresh witnesses
+        if "W1" not in st.ghost:
+            return [("ghost-witnesses-recorded", tm.FALSE)]
+        return iter_post(self.F, result.t, st.ghost["W1"], st.ghost["W2"])
+
+    def aux_lemmas(self, ex):
+        from pyvc.solve import Obligation
+        P, e, t = tm.V("P", SEQS), tm.V("e", STR), tm.V("t", INT)
+        Pe = tm.seqcat(P, tm.sequnit(e))
+        return [Obligation("seqs-snoc", [tm.le(0, t), tm.lt(t, tm.seqlen(P))],
+                           tm.and_(tm.eq(tm.seqnth(Pe, t), tm.seqnth(P, t)), tm.eq(tm.seqnth(Pe, tm.seqlen(P)), e),
+                                   tm.eq(tm.seqlen(Pe), tm.add(tm.seqlen(P), 1))),
+                           kind="B", text="nth(P ++ [e], t) = nth(P, t) for t < |P|, nth(P ++ [e], |P|) = e, |P ++ [e]| = |P| + 1")]
+
+    def result(self, ex, st, a):
+        st = st.fork()
+        exts = [tm.cval(x.t) for x in st.get(a["self"], "_extensions").items]
+        F = fs_listing(exts)
+        Y, W1, W2 = tm.fresh("keys", SEQS), tm.fresh("W1", W1S), tm.fresh("W2", W2S)
+        st = st.assume(*listing_facts(F, exts)).assume(*[t for (_, t) in iter_post(F, Y, W1, W2)])
+        st.ghost["last_iter"] = Y
+        return [(st, VT(Y, "list"))]
+
+
+class FsLen(Contract):
+    """len(registry) is the number of keys iteration yields"""
+    file, qual = BASE, "FilesystemRegistry.__len__"
+    props = ("C20",)
+    EXT = FsIter.EXT
+
+    def setup(self, ex, st, variant):
+        reg = VObj("FilesystemRegistry")
+        st.set_inplace(reg, "fs", VObj("FSAbs"))
+        st.set_inplace(reg, "_extensions", VTuple([VT(tm.S(e)) for e in self.EXT]))
+        return dict(self=reg)
+
+    def ensures(self, ex, pre, st, a, result):
+        Y = st.ghost.get("last_iter")
+        if Y is None or not isinstance(result, VT):
+            return [("counts-what-iteration-yields", tm.FALSE)]
+        return [("length-is-the-number-of-keys-iterated", tm.eq(result.t, tm.seqlen(Y)))]
+
+    def result(self, ex, st, a):
+        return [(st, VT(tm.fresh("len", INT)))]
+
+
+CONTRACTS += [FsIter(), FsLen()]
